@@ -12,7 +12,7 @@
    Model only; proofs in MsgCodecProofs.v. *)
 From Coq Require Import List NArith ZArith Bool String.
 From GS Require Import Base Varint Cbor.
-From GSgen Require Import GenSchema.
+From GSgen Require Import GenSchema GenStatus.
 Import ListNotations.
 Open Scope string_scope.
 Open Scope list_scope.
@@ -524,6 +524,8 @@ Record ccase := mk_ccase {
   cc_enc_ok : bool;               (* ToNet succeeded for all of them *)
   cc_bytes : bytes;               (* concatenated ToNet output *)
   cc_go : list gores;             (* successive FromMsgReader results on cc_bytes, until EOF/error *)
+  cc_seq : list (list gores);     (* per kind of io.Reader over cc_bytes: the results of successive FromNet calls
+                                     on that one reader, up to and including the first that is not a message *)
   cc_oracle : oracle }.
 
 (* put the entries of the built message into the order in which they appear on the wire (the Go
@@ -545,6 +547,14 @@ Fixpoint forall2b {A B} (f : A -> B -> bool) (a : list A) (b : list B) : bool :=
 Definition concat_opt (l : list (option bytes)) : option bytes :=
   fold_right (fun x acc => match x, acc with Some a, Some b => Some (a ++ b) | _, _ => None end) (Some []) l.
 
+(* successive reads of one stream: the messages in order, then a clean end *)
+Fixpoint seq_matches (ms : list msg) (sq : list gores) : bool :=
+  match ms, sq with
+  | [], [GEof] => true
+  | m :: ms', GMsg g :: sq' => msg_same m g && seq_matches ms' sq'
+  | _, _ => false
+  end.
+
 (* model vs implementation *)
 Definition ccase_agrees (c : ccase) : bool :=
   let H := oracle_H (cc_oracle c) in
@@ -562,6 +572,8 @@ Definition ccase_agrees (c : ccase) : bool :=
              (Some (cc_bytes c))
         (* ... and the implementation's decoder returned the same messages as the model's *)
         && forall2b (fun m' g => match g with GMsg gm => msg_same m' gm | _ => false end) ms' (cc_go c)
+        (* ... also when the stream is read by successive FromNet calls on one reader (read_all's answer) *)
+        && forallb (seq_matches ms') (cc_seq c)
     end
   else
     (* the real ToNet refused: so does the model, for at least one message *)
@@ -569,13 +581,14 @@ Definition ccase_agrees (c : ccase) : bool :=
 
 (* property monitor on the implementation's observations alone: Go decode of Go encode is equivalent
    to what was built, one by one in order *)
-(* the status codes /repo/responsecode.go defines: the property's "any defined status" (the schema's own
-   list, status_codes, is what the codec accepts; the two must agree for C11 to hold) *)
-Definition responsecode_defined (z : Z) : bool :=
-  existsb (Z.eqb z) [10; 11; 12; 13; 14; 15; 20; 21; 30; 31; 32; 33; 34; 35]%Z.
+(* the status codes /repo/responsecode.go defines (regenerated: GSgen.GenStatus): the property's "any defined
+   status" (the schema's own list, status_codes, is what the codec accepts; the two must agree for C11 to hold) *)
+Definition responsecode_defined (z : Z) : bool := existsb (Z.eqb z) (map snd rc_status_codes).   (* GenStatus *)
 Definition ccase_mon (c : ccase) : bool :=
   if cc_enc_ok c then
     forall2b (fun m g => match g with GMsg gm => msg_same m gm | _ => false end) (cc_msgs c) (cc_go c)
+    (* a stream of messages is read back one by one, in order, by successive FromNet calls on one reader *)
+    && forallb (seq_matches (cc_msgs c)) (cc_seq c)
   else
     (* ToNet may only refuse a message that carries a status responsecode.go does not define *)
     existsb (fun m => existsb (fun r => negb (responsecode_defined (rs_status r))) (m_rsps m)) (cc_msgs c).
@@ -586,6 +599,8 @@ Definition ccase_mon (c : ccase) : bool :=
 Record hcase := mk_hcase {
   hc_bytes : bytes;
   hc_go_first : gores;              (* FromNet on the bytes *)
+  hc_go_seq : list gores;           (* successive FromNet calls on ONE reader over the bytes, up to and including
+                                       the first result that is not a message *)
   hc_go_msgs : list msg;            (* ReceiveMessage calls, in order *)
   hc_go_errors : N;                 (* ReceiveError calls *)
   hc_go_reset : bool;               (* the writer saw the stream reset *)
@@ -598,6 +613,15 @@ Definition ev_msgs (l : list ev) : list msg :=
 Definition ev_errors (l : list ev) : N := blen (filter (fun e => match e with EvError => true | _ => false end) l).
 Definition ev_reset (l : list ev) : bool := existsb (fun e => match e with EvReset => true | _ => false end) l.
 
+(* successive FromNet calls: the messages in order, then GErr (malformed) or GEof (clean end) *)
+Fixpoint seq_ends (ms : list msg) (err : bool) (sq : list gores) : bool :=
+  match ms, sq with
+  | [], [GEof] => negb err
+  | [], [GErr] => err
+  | m :: ms', GMsg g :: sq' => msg_same m g && seq_ends ms' err sq'
+  | _, _ => false
+  end.
+
 Definition hcase_agrees (c : hcase) : bool :=
   let H := oracle_H (hc_oracle c) in
   let evs := handle_stream H (hc_bytes c) in
@@ -608,6 +632,7 @@ Definition hcase_agrees (c : hcase) : bool :=
    | _, _ => false
    end)
   && forall2b msg_same (ev_msgs evs) (hc_go_msgs c)
+  && seq_ends (ev_msgs evs) (0 <? ev_errors evs) (hc_go_seq c)
   && (ev_errors evs =? hc_go_errors c)
   && Bool.eqb (ev_reset evs) (hc_go_reset c).
 
@@ -630,6 +655,8 @@ Definition hcase_mon (c : hcase) : bool :=
   && (match hc_go_first c with GMsg g => delivered_ok H g | GPanic => false | _ => true end)
   && (hc_go_errors c <=? 1)
   && Bool.eqb (hc_go_errors c =? 1) (hc_go_reset c)
+  (* reading the same bytes by successive FromNet calls gives what the stream handler delivered *)
+  && seq_ends (hc_go_msgs c) (hc_go_errors c =? 1) (hc_go_seq c)
   (* nothing malformed goes unreported: without a ReceiveError the stream was a whole number of complete
      frames and every one of them was delivered as a message *)
   && (if hc_go_errors c =? 0
